@@ -465,6 +465,7 @@ class Parser:
         self._int_constants[key] = val
 
     def _add_integer_constant(self, name, int_str):
+        original = int_str
         int_str = int_str.lower().rstrip("ul")
         neg = int_str.startswith('-')
         if neg:
@@ -473,7 +474,11 @@ class Parser:
         if (int_str.startswith("0") and int_str != '0'
                 and not int_str.startswith("0x")):
             int_str = "0o" + int_str[1:]
-        pyvalue = int(int_str, 0)
+        try:
+            pyvalue = int(int_str, 0)
+        except ValueError:
+            raise CDefError("invalid integer constant for %s: %r"
+                            % (name, original))
         if neg:
             pyvalue = -pyvalue
         self._add_constants(name, pyvalue)
@@ -938,10 +943,14 @@ class Parser:
                 return self._c_div(left, right)
             elif exprnode.op == '%':
                 return left - self._c_div(left, right) * right
-            elif exprnode.op == '<<':
-                return left << right
-            elif exprnode.op == '>>':
-                return left >> right
+            elif exprnode.op in ('<<', '>>'):
+                if right < 0:
+                    raise CDefError(":%d: negative shift count in a constant "
+                                    "expression" % exprnode.coord.line)
+                if exprnode.op == '<<':
+                    return left << right
+                else:
+                    return left >> right
             elif exprnode.op == '&':
                 return left & right
             elif exprnode.op == '|':
@@ -953,6 +962,8 @@ class Parser:
                        "simple numeric constant" % exprnode.coord.line)
 
     def _c_div(self, a, b):
+        if b == 0:
+            raise CDefError("division by zero in a constant expression")
         result = a // b
         if ((a < 0) ^ (b < 0)) and (a % b) != 0:
             result += 1
